@@ -42,6 +42,9 @@ import (
 // ConfigWatcher, App. Doubles: SimNet (peer HTTP, fake Honeycomb /1/batch,
 // /1/auth), SimPubSub, SimClock, MockConfig, simulated clients.
 
+var bReal = []string{"route.Router x2 per node (real mux + middleware, in-process)", "collect.InMemCollector", "transmit.DirectTransmission x2 per node (real http.Client, zstd, msgpack)", "sharder.DeterministicSharder", "internal/peer.FilePeers / RedisPubsubPeers", "collect.StressRelief", "internal/health.Health", "metrics.MultiMetrics", "sample.SamplerFactory", "internal/configwatcher.ConfigWatcher", "app.App", "facebookgo inject + startstop wiring as in cmd/refinery/main.go"}
+var bStub = []string{"network (SimNet: peer HTTP and a fake Honeycomb API /1/batch, /1/auth)", "Redis (SimPubSub)", "clock (SimClock per node)", "config (MockConfig)", "SDK clients (simulated)", "gRPC listeners (not started)", "logger (NullLogger)"}
+
 const hnyHost = "api.hny.sim"
 const legacyKey = "abcdef0123456789abcdef0123456789"
 const envKey = "hcxik_01hqk4k20cjeh63wca8vva5stwhcxik01hqk4k20cjeh63wca8vva5stw0" // environment-scoped ingest key
